@@ -33,6 +33,7 @@ type EngineStats struct {
 }
 
 type Engine struct {
+	NoRegexpNFA bool // debugging: fall back to the uninterpreted regexp result on symbolic subjects
 	Prog     *ssa.Program
 	Pkgs     map[string]*ssa.Package // by import path
 	Fset     *token.FileSet
@@ -237,6 +238,7 @@ func (e *Engine) newInterpreter(cfg RunConfig) (*interpreter, error) {
 		goroutines: 1,
 		eng:        e,
 		stepBudget: cfg.StepBudget,
+		deadline:   cfg.Deadline,
 		auditEvery: cfg.AuditEvery,
 		memoOn:     !cfg.NoMemo,
 		memo:       map[string]*memoEntry{},
@@ -260,6 +262,13 @@ func (e *Engine) newInterpreter(cfg RunConfig) (*interpreter, error) {
 		return nil, err
 	}
 	i.sol = sol
+	sol.OnRestart = func() {
+		if i.ps != nil {
+			for _, t := range i.ps.pc {
+				sol.Assert(t)
+			}
+		}
+	}
 	i.ps = &pathState{covers: map[string]bool{}}
 	i.fnCount = map[*ssa.Function]int64{}
 	e.baseMu.Lock()
